@@ -30,6 +30,10 @@ import time
 _tls = threading.local()
 
 
+class Blocked(Exception):
+    pass
+
+
 class Gates:
     def __init__(self):
         self.cv = threading.Condition()
@@ -58,13 +62,13 @@ class Gates:
             self.done.add(tid)
             self.cv.notify_all()
 
-    def settle(self, tid, timeout=20):
+    def settle(self, tid, timeout=5):
         t0 = time.time()
         with self.cv:
             while tid not in self.waiting and tid not in self.done:
-                self.cv.wait(0.5)
+                self.cv.wait(0.25)
                 if time.time() - t0 > timeout:
-                    raise RuntimeError("request %d neither reached a gate nor finished" % tid)
+                    raise Blocked("request %d neither reached a gate nor finished within %s s" % (tid, timeout))
 
     def grant(self, tid):
         with self.cv:
@@ -73,7 +77,7 @@ class Gates:
             self.waiting.pop(tid, None)
             self.granted.add(tid)
             self.cv.notify_all()
-        self.settle(tid)
+        self.settle(tid, timeout=2)
 
     def release_all(self):
         with self.cv:
@@ -175,26 +179,38 @@ def c14_sched(job, drv):
                 gates.finish(tid)
 
         threads = [threading.Thread(target=worker, args=(i,), daemon=True) for i in range(n)]
+        blocked = None
+        alarm_was, drv._alarm_ok = drv._alarm_ok, False     # worker threads: time limits are the joins below
         try:
-            for i, t in enumerate(threads):
-                t.start()
-                gates.settle(i)
-            for tid in job["sched"]:
-                gates.grant(tid)
-            unfinished = [i for i in range(n) if i not in gates.done]
+            try:
+                for i, t in enumerate(threads):
+                    t.start()
+                    gates.settle(i, timeout=2)
+                for tid in job["sched"]:
+                    gates.grant(tid)
+            except Blocked as e:
+                # a request neither reached its next cache-file action nor finished while the others were paused:
+                # it waits for one of them (some lock) -- the schedule is not one this code admits
+                blocked = str(e)
+            unfinished = [i for i in range(n) if i not in gates.done] if blocked is None else []
             gates.release_all()
+            deadline = time.time() + 6
             for t in threads:
-                t.join(20)
+                t.join(max(0.0, deadline - time.time()))
+            hung = [i for i, t in enumerate(threads) if t.is_alive()]
         finally:
             gates.release_all()
             undo()
+            drv._alarm_ok = alarm_was
         obs = []
         detail = []
         for i in range(n):
             r = results[i] or {"out": "", "exc": "no result", "log": []}
             out = h.mask(drv.s2b(r["out"]))
             key = job["keys"][i]
-            if i in unfinished:
+            if i in hung:
+                o = 3000          # still running after everybody was released: the request hangs
+            elif i in unfinished:
                 o = 2000
             elif r["exc"] or (not out and any("EXCEPTION" in x for x in r["log"])):
                 o = 1000
@@ -216,7 +232,8 @@ def c14_sched(job, drv):
             complete = True
         except Exception:
             complete = False
-        return {"obs": obs, "complete": complete, "detail": detail, "gate_trace": gates.trace}
+        return {"obs": obs, "complete": complete, "detail": detail, "gate_trace": gates.trace, "blocked": blocked,
+                "hung": hung}
     finally:
         w.close()
 
@@ -314,11 +331,16 @@ class Server:
         self.script.write(SERVER_SCRIPT)
         self.script.close()
         extra = ["perturb", str(perturb)] if perturb else []
+        self.errpath = logpath + ".stderr"
+        self.errf = open(self.errpath, "w")
         self.p = subprocess.Popen([sys.executable, self.script.name, conf_path, logpath] + extra, stdin=subprocess.PIPE,
-                                  stdout=subprocess.PIPE, stderr=subprocess.PIPE, text=True, cwd=repo, env=env)
+                                  stdout=subprocess.PIPE, stderr=self.errf, text=True, cwd=repo, env=env,
+                                  start_new_session=True)
         line = self.p.stdout.readline()
         if not line:
-            raise RuntimeError("server did not start: " + self.p.stderr.read()[-2000:])
+            self.errf.flush()
+            with open(self.errpath) as f:
+                raise RuntimeError("server did not start: " + f.read()[-2000:])
         self.info = json.loads(line)
         self.port = self.info["port"]
 
@@ -346,7 +368,26 @@ class Server:
                 pass
         return run, zom
 
+    def survivors(self):
+        """processes of the server's session that are still alive (after the master has gone)"""
+        out = []
+        for d in os.listdir("/proc"):
+            if not d.isdigit() or int(d) == self.p.pid:
+                continue
+            try:
+                with open("/proc/%s/stat" % d) as f:
+                    s = f.read()
+                rest = s[s.rindex(")") + 2:].split()
+                if int(rest[3]) == self.p.pid and rest[0] != "Z":      # session id = the master's pid
+                    out.append(int(d))
+            except (OSError, ValueError):
+                pass
+        return out
+
     def stop(self):
+        """Returns what was left behind: live processes of the server's session after the master has exited and
+        whether the port still accepts connections."""
+        left = {"survivors": 0, "port_still_accepting": False}
         try:
             self.p.stdin.write("quit\n")
             self.p.stdin.flush()
@@ -355,9 +396,29 @@ class Server:
             self.p.kill()
         finally:
             try:
+                time.sleep(0.2)
+                surv = self.survivors()
+                left["survivors"] = len(surv)
+                try:
+                    s = socket.create_connection(("127.0.0.1", self.port), timeout=2)
+                    s.close()
+                    left["port_still_accepting"] = True
+                except OSError:
+                    pass
+                try:
+                    os.killpg(self.p.pid, 9)
+                except OSError:
+                    pass
+                for pid in surv:
+                    try:
+                        os.kill(pid, 9)
+                    except OSError:
+                        pass
+                self.errf.close()
                 os.unlink(self.script.name)
             except OSError:
                 pass
+        return left
 
 
 def _client_ctx():
@@ -367,7 +428,39 @@ def _client_ctx():
     return ctx
 
 
-def _exchange(port, rq, barrier=None, handshake_first=True, timeout=30, connect_late=False):
+CLIENT_TIMEOUT = float(os.environ.get("VERIF_C14_CLIENT_TIMEOUT", "10"))
+
+
+def _rogue(port, kind, barrier=None):
+    """Clients that never send a request: a TLS first byte followed by garbage / an abandoned handshake, and a
+    peer that resets before its first byte.  Nothing is expected back."""
+    try:
+        s = socket.create_connection(("127.0.0.1", port), timeout=5)
+        if barrier is not None:
+            try:
+                barrier.wait(30)
+            except threading.BrokenBarrierError:
+                pass
+        if kind == "tls-garbage":
+            s.sendall(b"\x16\x03\x01\x00\x2fthis is not a client hello at all, just bytes....")
+            try:
+                s.settimeout(2)
+                s.recv(100)
+            except OSError:
+                pass
+        elif kind == "tls-abandon":
+            s.sendall(b"\x16\x03\x01\x02\x00\x01\x00\x01")     # the start of a record, then the client goes away
+        elif kind == "reset":
+            import struct
+            s.setsockopt(socket.SOL_SOCKET, socket.SO_LINGER, struct.pack("ii", 1, 0))
+        s.close()
+    except OSError:
+        pass
+
+
+def _exchange(port, rq, barrier=None, handshake_first=True, timeout=None, connect_late=False, send_delay=0.0,
+              split_at=0):
+    timeout = timeout or CLIENT_TIMEOUT
     err = None
     data = b""
     try:
@@ -382,9 +475,16 @@ def _exchange(port, rq, barrier=None, handshake_first=True, timeout=30, connect_
                 s = _client_ctx().wrap_socket(s)
             if barrier is not None:
                 barrier.wait(30)
+            payload = rq["data"].encode("latin-1")
+            if send_delay and split_at:
+                # a slow client: the first byte(s) of the request now, the rest later
+                s.sendall(payload[:split_at])
+                payload = payload[split_at:]
+            if send_delay:
+                time.sleep(send_delay)      # connected (and accepted) first, request sent later
             if rq["tls"] and not handshake_first:
                 s = _client_ctx().wrap_socket(s)
-            s.sendall(rq["data"].encode("latin-1"))
+            s.sendall(payload)
             while True:
                 try:
                     chunk = s.recv(65536)
@@ -407,25 +507,28 @@ def _exchange(port, rq, barrier=None, handshake_first=True, timeout=30, connect_
     return data, err
 
 
-def _burst(port, rqs, stagger_handshake, offsets=None):
+def _burst(port, rqs, stagger_handshake, offsets=None, send_delays=None, rogues=(), split_at=None):
     """offsets: None = all clients released together by a barrier; else client i starts offsets[i] seconds after
-    the common start (staggered arrivals, no barrier)."""
+    the common start (staggered arrivals, no barrier).  send_delays: all clients connect, are released together and
+    client i sends its request send_delays[i] seconds later.  rogues: kinds of clients that never send a request."""
     n = len(rqs)
-    barrier = threading.Barrier(n) if offsets is None else None
+    barrier = threading.Barrier(n + len(rogues)) if offsets is None else None
     outs = [None] * n
     t_start = time.time() + 0.05
 
     def run(i):
         if offsets is not None:
             time.sleep(max(0.0, t_start + offsets[i] - time.time()))
-        outs[i] = _exchange(port, rqs[i], barrier, handshake_first=(not stagger_handshake or i % 2 == 0),
-                            connect_late=(n > 32))
+        outs[i] = _exchange(port, rqs[i], barrier, handshake_first=(not stagger_handshake or i % 2 == 0 or bool(send_delays)),
+                            connect_late=(n > 32 and not send_delays), send_delay=(send_delays[i] if send_delays else 0.0),
+                            split_at=(split_at[i] if split_at else 0))
 
     ts = [threading.Thread(target=run, args=(i,), daemon=True) for i in range(n)]
+    ts += [threading.Thread(target=_rogue, args=(port, k, barrier), daemon=True) for k in rogues]
     for t in ts:
         t.start()
     for t in ts:
-        t.join(60)
+        t.join(CLIENT_TIMEOUT * 2 + 40)
     return [o if o is not None else (b"", "client thread did not finish") for o in outs]
 
 
@@ -472,9 +575,14 @@ def c14_stress(job, drv):
             a = Server(repo, conf, os.path.join(w.tmp, "log-a-%s.txt" % servertype))
             refs = {}
             try:
+                nerr = 0
                 for name, rq in job["requests"].items():
+                    if nerr >= 3:
+                        refs[name] = b"<no sequential answer: the server had stopped answering>"
+                        continue
                     d1, e1 = _exchange(a.port, rq)
                     d2, e2 = _exchange(a.port, rq)      # second time: served from the caches
+                    nerr += bool(e1) + bool(e2)
                     refs[name] = _mask(d1)
                     if e1 or e2 or _mask(d1) != _mask(d2) or not d1:
                         out["mismatches"].append({"phase": "sequential", "request": name, "error": e1 or e2,
@@ -482,26 +590,105 @@ def c14_stress(job, drv):
                 out["server"] = a.info
             finally:
                 a.stop()
+            if nerr >= 3:
+                out["bursts"], out["after"], out["perturbed"], out["server_log_exceptions"] = [], None, [], []
+                out["aborted"] = "the server stopped answering sequential requests"
+                res[servertype] = out
+                continue
             # ---- bursts against a freshly started server, cold caches ----
             _clear_caches(w.root)
             logb = os.path.join(w.tmp, "log-b-%s.txt" % servertype)
             b = Server(repo, conf, logb)
             try:
-                for bi, names in enumerate(job["bursts"]):
+                for bi, bspec in enumerate(job["bursts"]):
+                    if isinstance(bspec, list):
+                        bspec = {"names": bspec}
+                    names = bspec["names"]
                     if job.get("cold_each_burst") and bi:
                         _clear_caches(w.root)
                     rqs = [job["requests"][nm] for nm in names]
                     t0 = time.time()
-                    outs = _burst(b.port, rqs, stagger_handshake=(bi % 2 == 1))
+                    outs = _burst(b.port, rqs, stagger_handshake=(bi % 2 == 1), send_delays=bspec.get("send_delays"),
+                                  rogues=bspec.get("rogues", ()), split_at=bspec.get("split_at"))
                     bad = 0
                     for i, (nm, (data, err)) in enumerate(zip(names, outs)):
                         if err or _mask(data) != refs[nm]:
                             bad += 1
                             out["mismatches"].append({
-                                "phase": "burst %d (N=%d)" % (bi, len(names)), "request": nm, "client": i, "error": err,
+                                "phase": "burst %d (N=%d%s)" % (bi, len(names), ", connect first, send staggered"
+                                                                if bspec.get("send_delays") else ""),
+                                "request": nm, "client": i, "error": err,
+                                "send_delay_s": (bspec.get("send_delays") or [None] * len(names))[i],
                                 "empty": not data, "got": _mask(data)[:300].decode("latin-1"),
                                 "expected": refs[nm][:300].decode("latin-1"), "burst": names})
-                    out["bursts"].append({"n": len(names), "bad": bad, "secs": round(time.time() - t0, 2)})
+                    ntimeout = sum(1 for _, err in outs if err and "timed out" in err)
+                    out["bursts"].append({"n": len(names), "bad": bad, "timeouts": ntimeout, "secs": round(time.time() - t0, 2),
+                                          "rogue_clients": len(bspec.get("rogues", ())),
+                                          "mode": "connect-first-send-staggered" if bspec.get("send_delays") else "barrier"})
+                    if ntimeout > 4:
+                        out["bursts_abandoned"] = "more than 4 clients of burst %d got no answer in %.0f s" % (bi, CLIENT_TIMEOUT)
+                        break
+                # ---- deterministic pairs: B is accepted and has sent its first byte, A is served completely, B sends the rest ----
+                out["pairs"] = {"n": 0, "bad": 0}
+                for a_nm, b_nm in (job.get("pairs") or []) if not out.get("bursts_abandoned") else []:
+                    box = {}
+                    started = threading.Event()
+
+                    def slow_b(b_nm=b_nm, box=box, started=started):
+                        rq = job["requests"][b_nm]
+                        try:
+                            s = socket.create_connection(("127.0.0.1", b.port), timeout=CLIENT_TIMEOUT)
+                            if rq["tls"]:
+                                s = _client_ctx().wrap_socket(s)
+                            payload = rq["data"].encode("latin-1")
+                            s.sendall(payload[:1])
+                            time.sleep(0.05)                 # the worker has picked the connection up
+                            started.set()
+                            box["go"].wait(CLIENT_TIMEOUT)
+                            s.sendall(payload[1:])
+                            data = b""
+                            while True:
+                                try:
+                                    chunk = s.recv(65536)
+                                except ssl.SSLError:
+                                    break
+                                if not chunk:
+                                    break
+                                data += chunk
+                            s.close()
+                            box["b"] = (data, None)
+                        except Exception as e:   # noqa
+                            box["b"] = (b"", type(e).__name__ + ": " + str(e))
+                            started.set()
+
+                    box["go"] = threading.Event()
+                    tb = threading.Thread(target=slow_b, daemon=True)
+                    tb.start()
+                    started.wait(CLIENT_TIMEOUT)
+                    box["a"] = _exchange(b.port, job["requests"][a_nm])
+                    box["go"].set()
+                    tb.join(CLIENT_TIMEOUT + 5)
+                    out["pairs"]["n"] += 1
+                    for who, nm in (("a", a_nm), ("b", b_nm)):
+                        data, err = box.get(who) or (b"", "no result")
+                        if err or _mask(data) != refs[nm]:
+                            out["pairs"]["bad"] += 1
+                            out["mismatches"].append({
+                                "phase": "interleaved pair: %s sends its first byte, %s is served completely, then the rest "
+                                         "of the first request is sent" % (b_nm, a_nm),
+                                "request": nm, "error": err, "empty": not data, "got": _mask(data)[:400].decode("latin-1"),
+                                "expected": refs[nm][:400].decode("latin-1"), "pair": [a_nm, b_nm]})
+                # ---- cold cache, a request that never reaches getdirlist(), then a listing (live server, one at a time) ----
+                for seqn in (job.get("probe_sequences") or []) if not out.get("bursts_abandoned") else []:
+                    _clear_caches(w.root)
+                    for nm in seqn:
+                        data, err = _exchange(b.port, job["requests"][nm])
+                        if err or _mask(data) != refs[nm]:
+                            out["mismatches"].append({
+                                "phase": "probe sequence %s on cold caches" % " ; ".join(seqn), "request": nm, "error": err,
+                                "empty": not data, "got": _mask(data)[:300].decode("latin-1"),
+                                "expected": refs[nm][:300].decode("latin-1"), "sequence": seqn})
+                            break
                 # ---- liveness and reaping ----
                 probe_name = job["probe"]
                 stats = None
@@ -511,14 +698,20 @@ def c14_stress(job, drv):
                     if stats["active_children"] == 0 and running == 0 and zombies == 0 and stats["threads"] <= 2:
                         break
                     time.sleep(0.1)
-                d, e = _exchange(b.port, job["requests"][probe_name])
+                probe_names = probe_name if isinstance(probe_name, list) else [probe_name]
+                probe_bad = []
+                for pn in probe_names:
+                    d, e = _exchange(b.port, job["requests"][pn])
+                    if e or _mask(d) != refs[pn]:
+                        probe_bad.append({"request": pn, "error": e, "got": _mask(d)[:200].decode("latin-1")})
                 out["after"] = {"stat": stats, "child_processes_running": running, "zombies": zombies,
-                                "probe_ok": (not e and _mask(d) == refs[probe_name]), "probe_error": e}
+                                "probe_ok": not probe_bad, "probe_error": probe_bad[:3] or None}
             finally:
-                b.stop()
+                out["left_behind"] = b.stop()
             # ---- perturbed start-up bursts (threads share the lazies; forked children each have their own) ----
             out["perturbed"] = []
-            for pi, pj in enumerate(job.get("perturbed", []) if servertype == "ThreadingTCPServer" else []):
+            for pi, pj in enumerate(job.get("perturbed", []) if servertype == "ThreadingTCPServer"
+                                    and not out.get("bursts_abandoned") else []):
                 _clear_caches(w.root)
                 c = Server(repo, conf, os.path.join(w.tmp, "log-c%d-%s.txt" % (pi, servertype)), perturb=pj["nap"])
                 try:
@@ -594,6 +787,7 @@ def _lazy_codes():
 def c14_lazy(job, drv):
     import implops_c10 as h
     w = drv.World({"tree": job["tree"]})
+    alarm_was, drv._alarm_ok = drv._alarm_ok, False          # requests run in worker threads here
     try:
         cfg = h.cacheless_config(drv, w.root, {})      # no directory cache: this leg is about the lazies only
         codes = _lazy_codes()
@@ -614,7 +808,8 @@ def c14_lazy(job, drv):
         sites = {}
         for a_name, b_name in pairs:
             k = 0
-            while k < job.get("max_points", 400):
+            waited = 0
+            while k < job.get("max_points", 400) and waited < 3:
                 k += 1
                 drv.reset_lazies()
                 cv = threading.Condition()
@@ -655,19 +850,32 @@ def c14_lazy(job, drv):
                     while not st["paused"] and not st["done"]:
                         cv.wait(10)
                 reached = st["paused"]
+                tb = None
                 if reached:
-                    res["b"] = ask(b_name)          # B runs completely while A sits between two lines of a lazy site
+                    # B runs completely while A sits between two lines of a lazy site (unless it waits for A)
+                    tb = threading.Thread(target=lambda: res.__setitem__("b", ask(b_name)), daemon=True)
+                    tb.start()
+                    tb.join(1.5)
+                    if tb.is_alive():
+                        waited += 1      # B waits for the paused A (some lock): preempting A here changes nothing
                 with cv:
                     st["go"] = True
                     cv.notify_all()
-                ta.join(20)
+                ta.join(8)
+                if tb is not None:
+                    tb.join(8)
                 if not reached:
                     break
+                for who, th_ in (("a", ta), ("b", tb)):
+                    if th_.is_alive() or who not in res:
+                        res[who] = (b"", {"exc": "request still running 8 s after every request was released", "out": ""})
                 trials += 1
                 sites[st["where"][0]] = sites.get(st["where"][0], 0) + 1
                 for who, nm in (("a", a_name), ("b", b_name)):
                     out, r = res[who]
                     if out != refs[nm] or r["exc"]:
+                        if "still running" in str(r["exc"]):
+                            k = 10 ** 9          # a hung request: no point in exploring further points of this pair
                         bad.append({"preempted_request": a_name, "other_request": b_name, "point": k,
                                     "site": st["where"][0], "before_line": st["where"][1], "wrong_answer_of": nm,
                                     "which": "the preempted request" if who == "a" else "the request that ran in between",
@@ -675,10 +883,76 @@ def c14_lazy(job, drv):
         return {"trials": trials, "sites": sites, "bad": bad[:20], "nbad": len(bad), "lazy_sites": sorted(codes.values())}
     finally:
         sys.settrace(None)
+        drv._alarm_ok = alarm_was
+        w.close()
+
+
+# ----------------------------------------------------------------------------
+# deterministic: a request that never reaches getdirlist(), then a listing of the same directory
+# ----------------------------------------------------------------------------
+def c14_probe_list(job, drv):
+    import implops_c10 as h
+    w = drv.World({"tree": job["tree"], "config": {"handlers.dir.DirHandler": {"cachetime": "180"}}})
+    alarm_was, drv._alarm_ok = drv._alarm_ok, False
+    try:
+        reqs = job["requests"]
+        limit = float(job.get("limit_s", 4))
+
+        def timed(cfg, nm):
+            box = {}
+
+            def body():
+                rq = reqs[nm]
+                box["r"] = drv.serve_once(cfg, drv.s2b(rq["data"]), tls=rq["tls"])
+
+            th = threading.Thread(target=body, daemon=True)
+            t0 = time.time()
+            th.start()
+            th.join(limit)
+            if th.is_alive():
+                return None, "still running after %.0f s" % limit
+            r = box.get("r") or {"out": "", "exc": "no result"}
+            return h.mask(drv.s2b(r["out"])), r["exc"]
+
+        bad = []
+        trials = 0
+        hangs = 0
+        for di, (dname, state) in enumerate(job["dirs"]):
+            sel = "/" + dname
+            cachepath = os.path.join(w.root, dname, ".cache.pygopherd.dir")
+            cfg_ref = h.cacheless_config(drv, w.root, {})
+            for probe, lister in job["combos"]:
+                if hangs >= 2:
+                    break
+                pn, ln = probe + " " + sel, lister + " " + sel
+                ref_probe, _ = timed(cfg_ref, pn)
+                ref_list, _ = timed(cfg_ref, ln)
+                # cache state before the probe
+                if os.path.exists(cachepath):
+                    os.unlink(cachepath)
+                if state in ("expired", "fresh"):
+                    timed(w.config, ln)
+                    if state == "expired":
+                        st = os.stat(cachepath)
+                        os.utime(cachepath, ns=(st.st_atime_ns, st.st_mtime_ns - 1000 * 10 ** 9))
+                trials += 1
+                for step, nm, ref in (("probe", pn, ref_probe), ("listing after the probe", ln, ref_list),
+                                      ("second listing", ln, ref_list)):
+                    out, exc = timed(w.config, nm)
+                    if out is None or exc or out != ref:
+                        hangs += out is None
+                        bad.append({"directory_cache": state, "probe": pn, "then": ln, "failing_step": step, "request": nm,
+                                    "hang": out is None, "error": exc, "got": drv.b2s((out or b"")[:300]),
+                                    "expected": drv.b2s((ref or b"")[:300])})
+                        break
+        return {"trials": trials, "bad": bad[:10], "nbad": len(bad)}
+    finally:
+        drv._alarm_ok = alarm_was
         w.close()
 
 
 def register(OPS, drv):
+    OPS["c14_probe_list"] = lambda job: c14_probe_list(job, drv)
     OPS["c14_lazy"] = lambda job: c14_lazy(job, drv)
     OPS["c14_sched"] = lambda job: c14_sched(job, drv)
     OPS["c14_stress"] = lambda job: c14_stress(job, drv)
